@@ -817,3 +817,40 @@ def unit_module_rows_validate():
         return [{"contract": module_rows_contract(), "callees": cal, "spec_functions": sf, "label": "rows()", "assumptions": A},
                 {"contract": module_validate_contract(), "callees": cal, "spec_functions": sf, "label": "validate()", "assumptions": A}]
     return ProofUnit("validio.rows+validate", "module-level rows()/validate(): reader always closed exactly once (also on error / abandonment); validate() stops after N data rows", ["C07", "C08", "C20", "C06", "C05"], make, None)
+
+
+# =====================================================================================================================
+# Reader._raw_rows : format dispatch (C16 C17 C13 C12)
+# =====================================================================================================================
+def unit_raw_rows():
+    def make(ctx):
+        out = []
+        for fmt in ("excel", "ods", "delimited", "fixed"):
+            def setup(ex, st, fmt=fmt):
+                df = Ref("DataFormat"); st.heap[df.oid] = {"_format": fmt, "_sheet": fresh(INT, "sheet")[0], "_encoding": fresh(STR, "encoding")[0], "_line_delimiter": fresh(Opt(STR), "ld")[0]}
+                cid = Ref("Cid"); st.heap[cid.oid] = {"_data_format": df}
+                src = Ref("Source"); self = Ref("Reader"); st.heap[self.oid] = {"_cid": cid, "_source_data_stream_or_path": src}
+                st.frames[-1].env["self"] = self; st.ghost.update({"df": df, "src": src, "cid": cid, "called": None, "fnl": None})
+            def rec(name):
+                def m(ex, st, fn, args, kw):
+                    st.ghost["called"] = (name, list(args)); r = Ref("Rows"); st.ghost["rows_obj"] = r; yield st, r
+                return ModelContract(m)
+            def m_fnl(ex, st, fn, args, kw):
+                r = Ref("FNL"); st.ghost["fnl"] = (r, args[0]); yield st, r
+            def dispatched(ex, st, fmt=fmt):
+                c = st.ghost["called"]; df = st.heap[st.ghost["df"].oid]; src = st.ghost["src"]
+                if c is None or st.ghost["__result__"] is not st.ghost.get("rows_obj"): return Sym(BOOL, z3.BoolVal(False))
+                name, a = c
+                if fmt == "excel": ok_ = name == "excel_rows" and len(a) == 2 and a[0] is src and a[1] is df["_sheet"]
+                elif fmt == "ods": ok_ = name == "ods_rows" and len(a) == 2 and a[0] is src and a[1] is df["_sheet"]
+                elif fmt == "delimited": ok_ = name == "delimited_rows" and len(a) == 2 and a[0] is src and a[1] is st.ghost["df"]
+                else:
+                    f = st.ghost["fnl"]
+                    ok_ = name == "fixed_rows" and len(a) == 4 and a[0] is src and a[1] is df["_encoding"] and f is not None and a[2] is f[0] and f[1] is st.ghost["cid"] and a[3] is df["_line_delimiter"]
+                return Sym(BOOL, z3.BoolVal(bool(ok_)))
+            out.append({"contract": Contract("validio.Reader._raw_rows", setup, returns=[Clause(dispatched, "rows-come-from-the-reader-of-the-CID's-format-with-the-format's-sheet-/-encoding-/-widths-/-line-delimiter", props=["C16", "C17", "C13", "C12", "C15"])],
+                                             raises={}, expect=["return"], n_loops=0, modifies=[]),
+                        "callees": {"rowio.excel_rows": rec("excel_rows"), "rowio.ods_rows": rec("ods_rows"), "rowio.delimited_rows": rec("delimited_rows"), "rowio.fixed_rows": rec("fixed_rows"),
+                                    "interface.field_names_and_lengths": ModelContract(m_fnl)}, "label": "format " + fmt})
+        return out
+    return ProofUnit("validio.Reader._raw_rows", "Reader._raw_rows: dispatch on the data format, passing the format's own settings", ["C16", "C17", "C13", "C12", "C15"], make, None)
